@@ -156,7 +156,13 @@ def main(argv):
         work = [k for k in callee_closure if k in body]
         while work:
             k = work.pop()
-            for nm in set(_re2.findall(r'\b([A-Za-z_][A-Za-z0-9_]*)\s*(?:::<[^>]*>)?\(', body[k])):
+            called = set(_re2.findall(r'\b([A-Za-z_][A-Za-z0-9_]*)\s*(?:::<[^>]*>)?\(', body[k]))
+            # operators and conversions are calls of trait-impl methods that never appear by name: `a * b`, `a - b`, `x.into()`, `a < b`, ...
+            if _re2.search(r'[-+*/%<>]|==|!=', body[k]):
+                called |= {'add', 'sub', 'mul', 'div', 'rem', 'add_assign', 'sub_assign', 'eq', 'ne', 'partial_cmp', 'cmp', 'lt', 'le', 'gt', 'ge'}
+            if 'into()' in body[k] or '::from(' in body[k]:
+                called |= {'from', 'into'}
+            for nm in called:
                 for k2 in names.get(nm, ()):
                     if k2 not in callee_closure:
                         callee_closure.add(k2)
